@@ -51,6 +51,12 @@ func NewJavaFullListener(nodes map[string]core_domain.CodeDataStruct, file strin
 	classStringQueue = nil
 	classNodeQueue = nil
 	methodQueue = nil
+	mapFields = make(map[string]string)
+	creatorMethodMap = make(map[string]core_domain.CodeFunction)
+	currentCreatorNode = *core_domain.NewDataStruct()
+	currentType = ""
+	hasEnterClass = false
+	initMethodScope()
 
 	initClass()
 	return &JavaFullListener{}
